@@ -41,10 +41,18 @@ def qualifier(inv, case, rec):
                      for v in case['problem']['fleet']['vehicles'] for sh in v['shifts'] for b in sh.get('breaks') or [])
         if offset:
             return 'seeded-with-offset-break'
-    if case.get('init') and inv in ('PlacesAndWindows', 'ShiftEnd', 'LimitDuration', 'DepartureNotAfterLatest'):
-        # seeded runs whose seed carries an advanced (rescheduled) departure: the search works on tours that do not leave at the shift start
-        if any(t['stops'] and t['stops'][0]['time']['departure'] != t['stops'][0]['time']['arrival'] for t in case['init'].get('tours', [])):
-            return 'seeded-with-advanced-departure'
+    if case.get('init') and inv in ('PlacesAndWindows', 'ShiftEnd'):
+        # seeded runs: departure rescheduling on tours read from an initial solution (advanced too far / insertion into an advanced tour)
+        return 'seeded-run-departure-rescheduling'
+    if inv in ATTR['C01'] and inv not in ('Reach',):
+        # a tour broken by a conditional job used twice (C02 ConditionalDistinct) breaks load and schedule as well
+        for t in rec.get('tours', []):
+            try:
+                sh = rec['vehicles'][t['vix'] - 1]['shifts'][t['shift'] - 1]
+            except (IndexError, KeyError):
+                continue
+            if any(sum(1 for a in t['flat'] if a['type'] == kind) > len(sh.get(kind + 's', [])) for kind in ('break', 'reload')):
+                return 'tour-with-conditional-job-used-twice'
     if inv == 'ConditionalDistinct':
         # a break / reload used more often in a tour than the shift defines (as opposed to one that is not defined for the shift at all)
         for t in rec.get('tours', []):
